@@ -48,9 +48,10 @@ def model_update(
     act: int,
     next_obs: int,
 ):
-    model.transition = model.transition.at[obs, act, next_obs].set(
-        counter.transition_counter[obs][act][next_obs]
-        / sum(counter.transition_counter[obs][act])
+    # a new visit of (obs, act) changes the frequency of every successor
+    counts = jnp.asarray(counter.transition_counter[obs][act], dtype=float)
+    model.transition = model.transition.at[obs, act].set(
+        counts / jnp.sum(counts)
     )
     model.reward = model.reward.at[obs, act, next_obs].set(
         np.mean(counter.reward_history[obs][act][next_obs])
